@@ -246,7 +246,16 @@ GenCond(pats, scope, s) ==
       c0 == Ch(s, 12)
       se == ScopeElse(pats, p, scope)
       c == IF Profile = "leak" /\ c0 \in 5..11 THEN 11 ELSE c0     \* profile leak (C05): mostly match sites behind a short-circuit
-  IN IF c <= 6 THEN G([c |-> [n |-> "pat", p |-> p], scope |-> sc, escope |-> se], s2)
+  IN IF Profile = "loose" /\ Coin(s2, 1, 5) THEN
+          \* profile loose (C04): the checker also accepts an INTEGER-valued condition (C-style truth value), alone or
+          \* as an operand of && / ||: the conditional jumps then find an int on the stack
+          LET a == GenExpr("int", scope, 1, Rnd(s2))
+              b == GenCmp(scope, 0, a.s)
+              k == Ch(a.s, 4)
+              cnd == CASE k = 1 -> a.x [] k = 2 -> Bin("&&", a.x, b.x) [] k = 3 -> Bin("||", b.x, a.x)
+                       [] OTHER -> Bin("&", a.x, [n |-> "int", v |-> 1])
+          IN G([c |-> cnd, scope |-> scope, escope |-> scope], Rnd(b.s))
+     ELSE IF c <= 6 THEN G([c |-> [n |-> "pat", p |-> p], scope |-> sc, escope |-> se], s2)
      ELSE IF c <= 8 THEN LET r == GenCmp(sc, 1, s2) IN G([c |-> Bin("&&", [n |-> "pat", p |-> p], r.x), scope |-> sc, escope |-> se], r.s)
      ELSE IF c = 9 THEN LET r == GenCmp(se, 1, s2) IN G([c |-> Bin("||", [n |-> "pat", p |-> p], r.x), scope |-> sc, escope |-> se], r.s)
      ELSE IF c = 10 THEN LET r == GenCmp(scope, 1, s2) IN G([c |-> r.x, scope |-> scope, escope |-> scope], r.s)
@@ -477,7 +486,9 @@ GenCase(seed) ==
       \* every metric gets a (never executed) typed write FIRST - before the decorator definitions too - so
       \* that the compiler's inference of the declared value type does not depend on statement order
       typed0 == SelectSeq(decls0, LAMBDA d : d.kind # "histogram")
-      pre == [i \in 1..Len(typed0) |-> TypingStmt(typed0[i])]
+      \* profile loose (C04): half of the programs leave type inference to the first real use - a metric may then
+      \* get its value type from nothing but a builtin's result (no reference semantics is computed in this profile)
+      pre == IF Profile = "loose" /\ Coin(Rnd(bd.s) + 17, 1, 2) THEN <<>> ELSE [i \in 1..Len(typed0) |-> TypingStmt(typed0[i])]
       declsA == [i \in 1..Len(decls0) |-> IF decls0[i].kind = "histogram"
                                           THEN [name |-> decls0[i].name, kind |-> "histogram", keys |-> <<>>, ty |-> "buckets", hidden |-> FALSE,
                                                 buckets |-> << <<1,1>>, <<2,1>>, <<4,1>> >>]
